@@ -92,6 +92,24 @@ def depth_guess(script) -> int:
     return sum(1 for a in script if a["ev"] in ("Timer", "OnKey", "TimerCfg")) - sum(1 for a in script if a["ev"] == "Step" and a["ins"]["k"] == "RETI")
 
 
+def nesting_scripts():
+    """handlers that re-enable interrupts and are interrupted again by the same source, 2..7 levels deep, with another request
+    pending but masked the whole time; then all the returns, then the unmasking (bookkeeping of a fixed small depth shows here)"""
+    out = []
+    for depth in range(2, 8):
+        for masked in (1, 0):        # which timer request waits, masked, while the ON-key handlers nest
+            s = [{"ev": "Step", "ins": {"k": "SETIMR", "v": 0x88}}, {"ev": "Timer", "s": masked}, {"ev": "Step", "ins": {"k": "NOP"}}]
+            for _ in range(depth):
+                s += [{"ev": "OnKey"}, {"ev": "Step", "ins": {"k": "NOP"}}, {"ev": "OnKeyUp"}, {"ev": "Step", "ins": {"k": "CLRISR", "m": [3]}},
+                      {"ev": "Step", "ins": {"k": "SETIMR", "v": 0x88}}]
+            for _ in range(depth):
+                s += [{"ev": "Step", "ins": {"k": "NOP"}}, {"ev": "Step", "ins": {"k": "RETI"}}]
+            s += [{"ev": "Step", "ins": {"k": "NOP"}}, {"ev": "Step", "ins": {"k": "SETIMR", "v": 0x88 | (1 << masked)}},
+                  {"ev": "Step", "ins": {"k": "NOP"}}, {"ev": "Step", "ins": {"k": "NOP"}}, {"ev": "Step", "ins": {"k": "RETI"}}, {"ev": "Step", "ins": {"k": "NOP"}}]
+            out.append(s)
+    return out
+
+
 def drive_shard(shard_id, items, extra):
     sys.path.insert(0, str(vlib.VERIF / "harness" / "py"))
     vlib.setup_repo_imports()
@@ -187,6 +205,7 @@ def run(cr: CheckRun) -> None:
     cr.mark("simulate")
     rnd = random.Random(cr.seed)
     ritems = [random_script(rnd, 40) for _ in range(400 if quick else 6000)]
+    ritems += nesting_scripts()
     campaign(cr, ritems, "random-scripts")
     cr.mark("random")
     cr.cov["distinct_nontrivial"] = len({json.dumps(b, sort_keys=True) for b in items + sitems + ritems})
